@@ -171,15 +171,15 @@ where
         part_ids: &mut [usize],
         weights: W,
     ) -> Result<Self::Metadata, Self::Error> {
-        if self.part_count < 2 || part_ids.len() < 2 {
-            return Ok(());
-        }
         let weights = weights.into_iter();
         if weights.len() != part_ids.len() {
             return Err(Error::InputLenMismatch {
                 expected: part_ids.len(),
                 actual: weights.len(),
             });
+        }
+        if self.part_count < 2 || part_ids.len() < 2 {
+            return Ok(());
         }
         if self.part_count == 2 {
             // The bi-partitioning is a special case that can be handled faster
